@@ -165,7 +165,7 @@ Definition rv_reset_unsaved (s : rv) : rv :=
   let s2 := set_prev_holes [] (set_holes [] s1) in
   set_prev_updated [] (set_updated [] s2).
 
-(* ---- write(), any_stored_vec.rs:50-143 ------------------------------------------------------ *)
+(* ---- write(), any_stored_vec.rs:50-165 ------------------------------------------------------ *)
 (* the `expanded` loop: region.write_at per entry, `?` on the first failure; the map was already
    taken out of the vector (take_current), so the remaining entries are dropped with it *)
 Fixpoint write_at_each (r : vreg T) (l : list (N * T)) : vreg T * bool :=   (* false = Err WriteOutOfBounds *)
@@ -183,7 +183,24 @@ Fixpoint batch_write_each (r : vreg T) (l : list (N * T)) : option (vreg T) :=  
     else None
   end.
 
-(* any_stored_vec.rs:71-94: the pushed values / the truncation *)
+(* any_stored_vec.rs:71-85 (repair of findings 3/4): when `expanded` (stored_len above the on-disk length,
+   the state a rollback of a truncating commit leaves), ONE contiguous truncate_write at real_stored_len of
+   updated[i] for i in real_stored_len..stored_len — SIZE_OF_T zero bytes ([zero_val]) for an index that is
+   not in `updated` (a deleted slot).  Afterwards the region backs every stored slot. *)
+Definition extend_vals (s : rv) : list T :=
+  map (fun i => match nm_get i (updated s) with Some v => v | None => zero_val end)
+      (seqN (real_stored_len s) (N.to_nat (stored_len s - real_stored_len s))).
+Definition write_extend (s : rv) : rv * option verr :=
+  if real_stored_len s <? stored_len s then                              (* expanded *)
+    match vr_truncate_write (reg s) (real_stored_len s) (extend_vals s) with
+    | None => (s, Some EWriteOutOfBounds)                                (* `?` *)
+    | Some r' => (set_reg r' s, None)
+    end
+  else (s, None).
+
+(* any_stored_vec.rs:87-116: the pushed values / the truncation.  [truncated] is computed by the code before
+   the extension step; an expanded state is not truncated before it and has stored_len = real_stored_len
+   after it, so recomputing it here on the extended state gives the same boolean *)
 Definition write_data (s : rv) : rv * option verr :=
   let sl := stored_len s in
   let pushed_len := len (pushed s) in
@@ -203,7 +220,8 @@ Definition write_data (s : rv) : rv * option verr :=
     end
   else (s, None).
 
-(* any_stored_vec.rs:96-120: the updates; [expanded] was computed before write_data *)
+(* any_stored_vec.rs:118-142: the updates; [expanded] was computed before write_extend / write_data
+   (since the repair every entry of the expanded loop is in bounds: the region was extended first) *)
 Definition write_updates (expanded : bool) (s1 : rv) : rv * res verr unit :=
   match updated s1 with
   | [] => (s1, Ok tt)
@@ -221,7 +239,7 @@ Definition write_updates (expanded : bool) (s1 : rv) : rv * res verr unit :=
       end
   end.
 
-(* any_stored_vec.rs:122-140: the holes region *)
+(* any_stored_vec.rs:144-162: the holes region *)
 Definition write_holes (had_holes : bool) (s2 : rv) : rv * res verr bool :=
   match holes s2 with
   | _ :: _ =>
@@ -248,15 +266,19 @@ Definition rv_write (s0 : rv) : rv * res verr bool :=
   let has_holes := match holes s with [] => false | _ => true end in
   let had_holes := has_stored_holes s in
   if negb truncated && negb expanded && negb has_new_data && negb has_updated_data && negb has_holes && negb had_holes
-  then (s, Ok false)                                                       (* :64-67 *)
+  then (s, Ok false)                                                       (* :66-69 *)
   else
-  match write_data s with
-  | (s1, Some e) => (s1, Err e)                                            (* `?` *)
-  | (s1, None) =>
-    match write_updates expanded s1 with
-    | (s2, Err e) => (s2, Err e)
-    | (s2, Panic) => (s2, Panic)
-    | (s2, Ok _) => write_holes had_holes s2
+  match write_extend s with                                                (* :71-85 *)
+  | (se, Some e) => (se, Err e)                                            (* `?` *)
+  | (se, None) =>
+    match write_data se with
+    | (s1, Some e) => (s1, Err e)                                          (* `?` *)
+    | (s1, None) =>
+      match write_updates expanded s1 with
+      | (s2, Err e) => (s2, Err e)
+      | (s2, Panic) => (s2, Panic)
+      | (s2, Ok _) => write_holes had_holes s2
+      end
     end
   end.
 
